@@ -248,6 +248,31 @@ class _Undefined:
 Undefined = _Undefined()
 
 
+class _FollowsClassDefault:
+    """
+    The `default` of a per-instance Parameter object that was not given a
+    default of its own: it reads as the current default of the Parameter
+    that governs the instance's class (see Parameter.__getattribute__).
+    """
+
+    __slots__ = ()
+
+    def __repr__(self):
+        return '<follows class default>'
+
+    def __reduce__(self):
+        return '_follows_class_default'
+
+    def __copy__(self):
+        return self
+
+    def __deepcopy__(self, memo):
+        return self
+
+
+_follows_class_default = _FollowsClassDefault()
+
+
 @contextmanager
 def logging_level(level):
     """Temporarily modify param's logging level."""
@@ -515,6 +540,11 @@ def _instantiate_param_obj(paramobj, owner=None):
     # Shallow-copy Parameter object without the watchers
     p = copy.copy(paramobj)
     p.owner = owner
+    if owner is not None and not isinstance(owner, type):
+        # an instance that has no value of its own follows its class, also
+        # when the class default is assigned later: so does the default of
+        # the instance's own Parameter object
+        object.__setattr__(p, 'default', _follows_class_default)
     # (paramobj may be temporarily unlocked by edit_constant)
     _copied_while_unlocked(paramobj, p)
 
@@ -1520,6 +1550,9 @@ class Parameter(_ParameterBase):
         value will be retrieved from the _slot_defaults dictionary.
         """
         v = object.__getattribute__(self, key)
+        if v is _follows_class_default:
+            owner = object.__getattribute__(self, 'owner')
+            return type(owner).param[object.__getattribute__(self, 'name')].default
         # Safely checks for name (avoiding recursion) to decide if this object is unbound
         if v is Undefined and key != "name" and getattr(self, "name", None) is None:
             try:
@@ -1754,7 +1787,10 @@ class Parameter(_ParameterBase):
         All Parameters have slots, not a dict, so we have to support
         pickle and deepcopy ourselves.
         """
-        return {slot: getattr(self, slot) for slot in self.__class__._all_slots_}
+        state = {slot: getattr(self, slot) for slot in self.__class__._all_slots_}
+        if object.__getattribute__(self, 'default') is _follows_class_default:
+            state['default'] = _follows_class_default
+        return state
 
     def __setstate__(self,state):
         # set values of __slots__ (instead of in non-existent __dict__)
